@@ -2,12 +2,50 @@
 
 package lsp
 
-// VerifDocuments exposes the server's document store to the C19 conformance check
-// (harness-only; injected through the build overlay, never committed to the repository).
-func (state *State) VerifDocuments() map[string]string {
-	out := map[string]string{}
-	for uri, doc := range state.documents {
-		out[string(uri)] = doc.Text
+import (
+	"reflect"
+	"unsafe"
+)
+
+// VerifDocuments exposes the server's document store (uri -> latest text) to the C19
+// conformance check. It is harness-only (injected through the build overlay, never
+// committed to the repository) and finds the store by shape, not by name, so that renaming
+// the field or switching to pointers does not break the check: the first map field of State
+// whose keys are strings and whose values are (pointers to) structs with a string field Text.
+// ok is false when no such field exists; the conformance clause is then skipped.
+func (state *State) VerifDocuments() (docs map[string]string, ok bool) {
+	sv := reflect.ValueOf(state).Elem()
+	for i := 0; i < sv.NumField(); i++ {
+		f := sv.Field(i)
+		if f.Kind() != reflect.Map || f.Type().Key().Kind() != reflect.String {
+			continue
+		}
+		et := f.Type().Elem()
+		if et.Kind() == reflect.Ptr {
+			et = et.Elem()
+		}
+		if et.Kind() != reflect.Struct {
+			continue
+		}
+		tf, has := et.FieldByName("Text")
+		if !has || tf.Type.Kind() != reflect.String {
+			continue
+		}
+		// make the unexported field readable
+		f = reflect.NewAt(f.Type(), unsafe.Pointer(f.UnsafeAddr())).Elem()
+		docs = map[string]string{}
+		it := f.MapRange()
+		for it.Next() {
+			v := it.Value()
+			if v.Kind() == reflect.Ptr {
+				if v.IsNil() {
+					continue
+				}
+				v = v.Elem()
+			}
+			docs[it.Key().String()] = v.FieldByName("Text").String()
+		}
+		return docs, true
 	}
-	return out
+	return nil, false
 }
